@@ -123,7 +123,7 @@ theorem monitor_accepts_every_model_trace (start min : Nat) (prop exec : List Na
     · obtain ⟨a, b⟩ := construct_inv (now := start) (maxTtl := MAX_TTL) (self := 0) (minDelay := min)
         (ps := prop) (es := exec) (admin := admin) h2 hm
       exact ⟨a, b, rfl, fun id hne => absurd rfl hne⟩
-    · exact ⟨rfl, fun _ => rfl, fun p hp => (by cases hp), fun _ => rfl⟩
+    · exact ⟨rfl, fun _ => rfl, fun p hp => (by cases hp), fun _ => ⟨rfl, construct_roleAdmin_none _ _ _ _ _ _ _⟩⟩
   induction lines with
   | nil => intro m x _ _; rfl
   | cons ln rest ih =>
